@@ -1,4 +1,150 @@
-(* PC17.v — placeholder while the proofs are being built *)
-From SV Require Import Manifest.
-Theorem C17_placeholder : True. Proof. exact I. Qed.
-Print Assumptions C17_placeholder.
+(* PC17.v — property C17: each sample number maps to exactly one card; manifests account for every card.
+   Model: Manifest.v (Dominion/Hart prep_manifest, sample_from_manifest, sample_from_cvrs); lemmas: Manifest_proofs.v.
+   Vocabulary (Manifest_proofs.v): nonneg l = every size >= 0; before sizes b = cards in the batches before batch b
+   (0-based b); base Dominion = 1, base Hart = 0; valid v sizes s = base v <= s < base v + total;
+   in_batch v sizes b k = b is a batch and base v <= k < base v + size of b (1..size resp. 0..size-1);
+   wf_prepared pm = sizes >= 0 and cum_cards their running total; picked v pm s p = p is what the loop body of
+   sample_from_manifest computes for s (row, position from lookup_card); label r = (tabulator, batch). *)
+From Coq Require Import ZArith List Bool Lia Permutation.
+From SV Require Import Manifest Manifest_proofs.
+Import ListNotations.
+Open Scope Z_scope.
+
+(* ---- the lookup: np.searchsorted(side="left") on [0]+cum_cards, 1-based numbers and positions (Dominion) *)
+Theorem C17_lookup_dominion :
+  forall sizes, nonneg sizes ->
+    let cum := cumsum sizes in
+    (forall s, 1 <= s < 1 + zsum sizes ->
+       exists b k, lookup_card Dominion cum s = Some (b, k) /\
+                   ((b < length sizes)%nat /\ 1 <= k < 1 + nth b sizes 0) /\ before sizes b + k = s) /\
+    (forall s r, lookup_card Dominion cum s = Some r -> 1 <= s < 1 + zsum sizes) /\
+    (forall s1 s2 r, lookup_card Dominion cum s1 = Some r -> lookup_card Dominion cum s2 = Some r -> s1 = s2) /\
+    (forall b k, (b < length sizes)%nat /\ 1 <= k < 1 + nth b sizes 0 ->
+       lookup_card Dominion cum (before sizes b + k) = Some (b, k)) /\
+    (forall s b k, lookup_card Dominion cum s = Some (b, k) -> 0 < nth b sizes 0).
+Proof. exact (lookup_bijection_holds Dominion). Qed.
+Print Assumptions C17_lookup_dominion.
+
+Example C17_lookup_dominion_nonvacuous :
+  nonneg [0; 2; 0; 0; 3; 0] /\
+  map (lookup_card Dominion (cumsum [0; 2; 0; 0; 3; 0])) [0; 1; 2; 3; 4; 5; 6]
+  = [None; Some (1%nat, 1); Some (1%nat, 2); Some (4%nat, 1); Some (4%nat, 2); Some (4%nat, 3); None].
+Proof. split; [repeat (constructor; [lia|]); constructor | vm_compute; reflexivity]. Qed.
+
+(* ---- the lookup: side="right", 0-based numbers and positions (Hart) *)
+Theorem C17_lookup_hart :
+  forall sizes, nonneg sizes ->
+    let cum := cumsum sizes in
+    (forall s, 0 <= s < 0 + zsum sizes ->
+       exists b k, lookup_card Hart cum s = Some (b, k) /\
+                   ((b < length sizes)%nat /\ 0 <= k < 0 + nth b sizes 0) /\ before sizes b + k = s) /\
+    (forall s r, lookup_card Hart cum s = Some r -> 0 <= s < 0 + zsum sizes) /\
+    (forall s1 s2 r, lookup_card Hart cum s1 = Some r -> lookup_card Hart cum s2 = Some r -> s1 = s2) /\
+    (forall b k, (b < length sizes)%nat /\ 0 <= k < 0 + nth b sizes 0 ->
+       lookup_card Hart cum (before sizes b + k) = Some (b, k)) /\
+    (forall s b k, lookup_card Hart cum s = Some (b, k) -> 0 < nth b sizes 0).
+Proof. exact (lookup_bijection_holds Hart). Qed.
+Print Assumptions C17_lookup_hart.
+
+Example C17_lookup_hart_nonvacuous :
+  nonneg [0; 2; 0; 0; 3; 0] /\
+  map (lookup_card Hart (cumsum [0; 2; 0; 0; 3; 0])) [-1; 0; 1; 2; 3; 4; 5]
+  = [None; Some (1%nat, 0); Some (1%nat, 1); Some (4%nat, 0); Some (4%nat, 1); Some (4%nat, 2); None].
+Proof. split; [repeat (constructor; [lia|]); constructor | vm_compute; reflexivity]. Qed.
+
+(* ---- preparing a manifest *)
+Theorem C17_prep :
+  forall v m max_cards n_cvrs,
+    let total := zsum (sizes m) in
+    (max_cards < total \/ total < n_cvrs -> prep_manifest v m max_cards n_cvrs = Err EAssert) /\
+    (n_cvrs <= total <= max_cards ->
+       exists pm, prep_manifest v m max_cards n_cvrs = Ok (pm, total, max_cards - total) /\
+         zsum (sizes (pm_rows pm)) = max_cards /\
+         pm_cum pm = cumsum (sizes (pm_rows pm)) /\
+         (total = max_cards -> pm_rows pm = m) /\
+         (total < max_cards -> pm_rows pm = m ++ [phantom_row v (max_cards - total)]) /\
+         (nonneg (sizes m) -> nonneg (sizes (pm_rows pm)))).
+Proof. exact prep_holds. Qed.
+Print Assumptions C17_prep.
+
+Definition ex_rows : list row := [mkrow 200 100 1 10 0; mkrow 201 101 2 11 2; mkrow 202 102 1 12 0; mkrow 203 103 3 13 1].
+Example C17_prep_nonvacuous :
+  prep_manifest Dominion ex_rows 5 3 = Ok (mkprep (ex_rows ++ [mkrow (-1) (-1) 0 1 2]) [0; 2; 2; 3; 5], 3, 2)
+  /\ prep_manifest Hart ex_rows 3 3 = Ok (mkprep ex_rows [0; 2; 2; 3], 3, 0)
+  /\ prep_manifest Hart ex_rows 2 0 = Err EAssert /\ prep_manifest Dominion ex_rows 9 4 = Err EAssert.
+Proof. vm_compute. repeat split. Qed.
+
+(* ---- sample_from_manifest: succeeds exactly on valid numbers; one card per number; phantom records;
+        selection order i and serial s+1 recorded under the card's identifier *)
+Theorem C17_order :
+  forall v pm sample, wf_prepared pm ->
+    (Forall (valid v (sizes (pm_rows pm))) sample <-> exists out, sample_from_manifest v pm sample = Ok out) /\
+    forall cards so mv, sample_from_manifest v pm sample = Ok (cards, so, mv) ->
+      exists ps, Forall2 (picked v pm) sample ps /\ map p_i ps = zseq 0 (length sample) /\
+        Permutation cards (map (card_of v) ps) /\
+        mv = map pick_id (filter (fun p => r_tab (p_row p) =? phantom_tab) ps) /\
+        (NoDup sample -> NoDup (map label (pm_rows pm)) ->
+           so = map (fun p => (pick_id p, (p_i p, p_s p + 1))) ps).
+Proof. exact sfm_holds. Qed.
+Print Assumptions C17_order.
+
+Definition ex_pm : prepared := mkprep (ex_rows ++ [mkrow (-1) (-1) 0 1 2]) [0; 2; 2; 3; 5].
+Example C17_order_nonvacuous :
+  wf_prepared ex_pm /\ NoDup [5; 1; 3; 2] /\ NoDup (map label (pm_rows ex_pm)) /\
+  sample_from_manifest Dominion ex_pm [5; 1; 3; 2]
+  = Ok ([[201; 101; 2; 11; 1; 2; 11; 1; 1]; [201; 101; 2; 11; 2; 2; 11; 2; 2]; [203; 103; 3; 13; 1; 3; 13; 1; 3];
+         [-1; -1; 0; 1; 2; 0; 1; 2; 5]],
+        [((0, 1, 2), (0, 6)); ((2, 11, 1), (1, 2)); ((3, 13, 1), (2, 4)); ((2, 11, 2), (3, 3))],
+        [(0, 1, 2)]).
+Proof.
+  split; [split; [simpl; repeat (constructor; [lia|]); constructor | reflexivity]|].
+  split; [repeat (constructor; [simpl; intuition lia|]); constructor|].
+  split; [unfold label; simpl; repeat (constructor; [simpl; intuition congruence|]); constructor | vm_compute; reflexivity].
+Qed.
+
+(* ---- a phantom manual record exactly for the cards that fall in the appended phantom batch *)
+Theorem C17_phantom_iff :
+  forall v m max_cards n_cvrs pm mc ph sample cards so mv,
+    nonneg (sizes m) -> Forall (fun r => r_tab r <> phantom_tab) m ->
+    prep_manifest v m max_cards n_cvrs = Ok (pm, mc, ph) ->
+    sample_from_manifest v pm sample = Ok (cards, so, mv) ->
+    mv = map (fun s => (phantom_tab, 1, s - mc)) (filter (fun s => base v + mc <=? s) sample).
+Proof. exact phantom_holds. Qed.
+Print Assumptions C17_phantom_iff.
+
+Example C17_phantom_iff_nonvacuous :
+  nonneg (sizes ex_rows) /\ Forall (fun r => r_tab r <> phantom_tab) ex_rows /\
+  prep_manifest Hart ex_rows 5 3 = Ok (mkprep (ex_rows ++ [mkrow (-1) 0 0 1 2]) [0; 2; 2; 3; 5], 3, 2) /\
+  (exists cards so, sample_from_manifest Hart (mkprep (ex_rows ++ [mkrow (-1) 0 0 1 2]) [0; 2; 2; 3; 5]) [4; 0; 3; 2]
+                    = Ok (cards, so, [(0, 1, 1); (0, 1, 0)])).
+Proof.
+  split; [simpl; repeat (constructor; [lia|]); constructor|].
+  split; [repeat (constructor; [simpl; unfold phantom_tab; lia|]); constructor|].
+  split; [vm_compute; reflexivity|]. eexists. eexists. vm_compute. reflexivity.
+Qed.
+
+(* ---- sample_from_cvrs: the sampled CVRs in selection order, matching identifiers, phantom records for phantoms *)
+Theorem C17_from_cvrs :
+  (forall v rows cvrs sample cards so cs mv,
+     sample_from_cvrs v rows cvrs sample = Ok (cards, so, cs, mv) ->
+     exists cl,
+       Forall2 (fun s c => 0 <= s /\ nth_error cvrs (Z.to_nat s) = Some c) sample cl /\
+       cs = combine sample (map v_id cl) /\
+       mv = map v_id (filter v_phantom cl) /\
+       (exists cardl, Permutation cards cardl /\
+          Forall2 (fun c card => cvr_card v rows c = Ok card /\ last card 0 = v_id c) cl cardl) /\
+       (NoDup (map v_id cl) ->
+          so = combine (map v_id cl) (combine (zseq 0 (length sample)) (map (fun s => s + 1) sample)))) /\
+  (forall v rows cvrs sample,
+     Forall (fun s => 0 <= s /\ exists c, nth_error cvrs (Z.to_nat s) = Some c /\ has_batch v rows c) sample ->
+     exists out, sample_from_cvrs v rows cvrs sample = Ok out).
+Proof. exact (conj sfc_holds sfc_total). Qed.
+Print Assumptions C17_from_cvrs.
+
+Definition ex_cvrs : list cvr :=
+  [mkcvr 51 2 11 1 1 false; mkcvr 52 2 11 2 2 false; mkcvr 53 3 13 1 1 false; mkcvr 90 0 1 1 1 true].
+Example C17_from_cvrs_nonvacuous :
+  sample_from_cvrs Dominion (pm_rows ex_pm) ex_cvrs [3; 0; 2]
+  = Ok ([[201; 101; 2; 11; 1; 51]; [203; 103; 3; 13; 1; 53]; [empty_str; empty_str; 0; 1; 1; 90]],
+        [(90, (0, 4)); (51, (1, 1)); (53, (2, 3))], [(3, 90); (0, 51); (2, 53)], [90]).
+Proof. vm_compute. reflexivity. Qed.
